@@ -331,6 +331,16 @@ fn bool_checks(st: &mut Stats) -> Result<(), String> {
         if ok != (b <= 1) {
             return Err(format!("Bool: validate([{}]) is {}", b, if ok { "Ok" } else { "Err" }));
         }
+        // a Bool is validated from whatever follows it as well (field walkers hand over the rest of the slice)
+        for tail in [&[0u8][..], &[1], &[2], &[0xff, 0, 1], &[7; 9]] {
+            let mut v = vec![b];
+            v.extend_from_slice(tail);
+            st.eval(1);
+            let okt = <Bool as FlatValidate>::validate(&v).is_ok();
+            if okt != (b <= 1) {
+                return Err(format!("Bool: validate({:?}) is {} (the bytes behind the Bool must not matter)", v, if okt { "Ok" } else { "Err" }));
+            }
+        }
         st.nontrivial(("Bool", b), || json!({"type": "Bool", "byte": b}));
     }
     for x in [false, true] {
